@@ -43,11 +43,19 @@ def main() -> int:
             aud['built'] = False
             aud['log'] = logc
     # 2./3. K + T (+ S inside)
-    if replay:
-        obj = json.loads(Path(replay).read_text())
-        prop.replay(run, obj.get('replay', obj))
-    else:
-        prop.run_T(run)
+    try:
+        if replay:
+            obj = json.loads(Path(replay).read_text())
+            prop.replay(run, obj.get('replay', obj))
+        else:
+            prop.run_T(run)
+    except KeyboardInterrupt:
+        raise
+    except BaseException as e:  # noqa: BLE001
+        # a watchdog that fired outside a guarded call (the real code does not return): a finding, not a crash
+        from framework import Finding
+        run.findings.append(Finding('correspondence', f'the run on the real code was aborted: {type(e).__name__}: {e}',
+                                    {'broken': 'adapter', 'error': f'{type(e).__name__}: {e}'}))
     return finish(run, aud, forbidden, prop)
 
 
